@@ -44,7 +44,7 @@ variable (T : Stat) {s : Store} {out : CSem2.Outcome} {lp : Bool × Bool} {brk c
     given by `hhead`. -/
 theorem sim_for_core (n : Nat) (ih : ∀ m, m ≤ n → SimStmt T m) (e : Option Expr3) (step b : Stmt)
     (hd : List Item × SCtx)
-    (hex : exec T.S.cs T.P (n + 1) s (.for_ e step b) = some out) (hfs : frag T.P T.cnts step = true) (hfb : frag T.P T.cnts b = true)
+    (hex : exec T.S.cs T.P (n + 1) s (.for_ e step b) = some out) (hfs : frag T.P T.cnts T.W step = true) (hfb : frag T.P T.cnts T.W b = true)
     (hsimple : step.isSimple = true) {n2 : Nat}
     (hwb : Stmt.wt T.vtys T.ret true true nd b = some nd') (hws : Stmt.wt T.vtys T.ret false false nd step = some n2)
     (hp : Pos T c nd pre)
@@ -66,12 +66,12 @@ theorem sim_for_core (n : Nat) (ih : ∀ m, m ≤ n → SimStmt T m) (e : Option
       ∀ (m : Nat), m ≤ n → ∀ (s : Store) (env : Env) (M : Mem) (v : Int),
       (match e with
         | some e => evalE3 T.S.cs (callOf T.P fun s' st' => exec T.S.cs T.P m s' st') s e
-        | none => some 1) = some v → SInv T.M0 T.S.cs T.cnts T.σ T.vtys s env M →
+        | none => some 1) = some v → SInv T.M0 T.S.cs T.cnts T.W T.σ T.vtys s env M →
       ∃ k env' st, T.Reach k (T.at env M (pre ++ [.lbl none (lblName "for_cond" (c.blockid + 1)) []])) st ∧
-        SInv T.M0 T.S.cs T.cnts T.σ T.vtys s env' M ∧
+        SInv T.M0 T.S.cs T.cnts T.W T.σ T.vtys s env' M ∧
         (if v ≠ 0 then st = T.at env' M (pre ++ [.lbl none (lblName "for_cond" (c.blockid + 1)) []] ++ hd.1)
          else AtLabel T.S (lblName "for_join" (c.blockid + 4)) env' M st))
-    (inv : SInv T.M0 T.S.cs T.cnts T.σ T.vtys s env M) :
+    (inv : SInv T.M0 T.S.cs T.cnts T.W T.σ T.vtys s env M) :
     Post T lp brk cont (T.at env M pre)
       (pre ++ ([labelItem c (lblName "for_cond" (c.blockid + 1))] ++ hd.1 ++
       (funcstmt T.S.cs (lblName "for_join" (c.blockid + 4)) (lblName "for_cont" (c.blockid + 3)) b hd.2).items ++
@@ -140,7 +140,7 @@ theorem sim_for_core (n : Nat) (ih : ∀ m, m ≤ n → SimStmt T m) (e : Option
     rw [hitsJ]
   -- iterations, entered at `for_cond`
   have hQ : ∀ k, k ≤ n → ∀ (s : Store) (env : Env) (M : Mem) (out : CSem2.Outcome),
-      exec T.S.cs T.P (k + 1) s (.for_ e step b) = some out → SInv T.M0 T.S.cs T.cnts T.σ T.vtys s env M →
+      exec T.S.cs T.P (k + 1) s (.for_ e step b) = some out → SInv T.M0 T.S.cs T.cnts T.W T.σ T.vtys s env M →
       Done T lp brk cont (T.at env M (pre ++ [.lbl none (lblName "for_cond" (c.blockid + 1)) []]))
         (((pre ++ [.lbl none (lblName "for_cond" (c.blockid + 1)) []] ++ hd.1 ++ ob.items) ++
           [.lbl ob.ctx.jump (lblName "for_cont" (c.blockid + 3)) []] ++ os.items) ++
@@ -184,7 +184,7 @@ theorem sim_for_core (n : Nat) (ih : ∀ m, m ≤ n → SimStmt T m) (e : Option
             (match exec T.S.cs T.P (k + 1) s' step with
               | some (.normal s'') => exec T.S.cs T.P (k + 1) s'' (.for_ e step b)
               | _ => none) = some out →
-            SInv T.M0 T.S.cs T.cnts T.σ T.vtys s' env' M' →
+            SInv T.M0 T.S.cs T.cnts T.W T.σ T.vtys s' env' M' →
             Done T lp brk cont (T.at env' M' ((pre ++ [.lbl none (lblName "for_cond" (c.blockid + 1)) []] ++
               hd.1 ++ ob.items) ++ [.lbl ob.ctx.jump (lblName "for_cont" (c.blockid + 3)) []]))
               (((pre ++ [.lbl none (lblName "for_cond" (c.blockid + 1)) []] ++ hd.1 ++ ob.items) ++
@@ -254,11 +254,11 @@ theorem sim_for_core (n : Nat) (ih : ∀ m, m ≤ n → SimStmt T m) (e : Option
 
 theorem sim_for (n : Nat) (hc : ∀ m, m ≤ n → CallOK T m) (ih : ∀ m, m ≤ n → SimStmt T m) (e : Option Expr3)
     (step b : Stmt)
-    (hex : exec T.S.cs T.P (n + 1) s (.for_ e step b) = some out) (hfr : frag T.P T.cnts (.for_ e step b) = true)
+    (hex : exec T.S.cs T.P (n + 1) s (.for_ e step b) = some out) (hfr : frag T.P T.cnts T.W (.for_ e step b) = true)
     (hwt : Stmt.wt T.vtys T.ret lp.1 lp.2 nd (.for_ e step b) = some nd') (hp : Pos T c nd pre)
     (hext : Ext T (funcstmt T.S.cs brk cont (.for_ e step b) c).ctx)
     (hits : T.S.its = pre ++ (funcstmt T.S.cs brk cont (.for_ e step b) c).items ++ post)
-    (inv : SInv T.M0 T.S.cs T.cnts T.σ T.vtys s env M) :
+    (inv : SInv T.M0 T.S.cs T.cnts T.W T.σ T.vtys s env M) :
     Post T lp brk cont (T.at env M pre) (pre ++ (funcstmt T.S.cs brk cont (.for_ e step b) c).items)
       (funcstmt T.S.cs brk cont (.for_ e step b) c).ctx out := by
   simp only [Stmt.wt] at hwt
